@@ -26,7 +26,7 @@ func init() {
 			}
 			g = gen.Alt(g, gen.Seq(gen.Lit("1.0-1", "1.0-2", "1.0.1-1", "1:1.0-1"), gen.Lit("^git1", "^1", "~pre", "^git1~pre", "~", "^", ".^1", "^.1")))
 			m := gen.Magnitudes
-			g = gen.Alt(g, gen.Seq(gen.Lit("1.", "1-", "1a", "1:1.", "1~", "1^"), m), gen.Seq(m, gen.Lit(":1", "", "-1", ".1", "a")), gen.Seq(gen.Lit("1.", "1-", "1a", "1~", "1^"), gen.LeadingZeros), gen.Seq(gen.Lit("1.", "1-"), gen.Lit("7", "8", "9", "10", "11")))
+			g = gen.Alt(g, gen.Seq(gen.Lit("1.", "1-", "1a", "1:1.", "1~", "1^"), m), gen.Seq(m, gen.Lit(":1", "", "-1", ".1", "a")), gen.Seq(gen.Lit("1.", "1-", "1a", "1~", "1^"), gen.LeadingZeros), gen.Seq(gen.Lit("1.", "1-"), gen.Lit("7", "8", "9", "10", "11")), gen.Seq(gen.Alt(gen.LeadingZeros, gen.Lit("7", "8", "9", "10")), gen.Lit(":1", ":1.0")), gen.Seq(gen.Lit("0:", "1:", ""), gen.Lit("0.9.8", "0.1", "0", "00.1", "0-1", "0.9.8-1")))
 			return g
 		},
 		Valid: ref.RpmValid,
